@@ -233,7 +233,7 @@ def tree_hash(h=None):
 def cache_path(h):
     import hashlib
 
-    key = hashlib.sha256((tree_hash(h) + "|" + h["crate"] + "|" + h["path"] + "|" + json.dumps([h.get("kind"), h.get("expect_fail"), h.get("stubbing"), h.get("cbmc_args"), h.get("tags")])).encode()).hexdigest()
+    key = hashlib.sha256((tree_hash(h) + "|" + h["crate"] + "|" + h["path"] + "|" + json.dumps([h.get("kind"), h.get("expect_fail"), h.get("stubbing"), h.get("cbmc_args"), h.get("tags")]) + (json.dumps(h["forbid_fail"]) if h.get("forbid_fail") else "")).encode()).hexdigest()
     return os.path.join(CACHE, "results", key + ".json")
 
 
